@@ -122,19 +122,20 @@ def check(tier):
         raise core.ToolError("no REPLAY lines from MC_Extract")
     r = random.Random(core.seed())
     r.shuffle(graphs)
-    nrep = 250 if quick else 4000
+    nrep = 90 if quick else 4000
     sessions = [graph_session(g, "c07-g%d" % k, ncls, r) for k, (ncls, g) in enumerate(graphs[:nrep])]
     r.shuffle(satgraphs)
-    sessions += [graph_session(g, "c07-noparent%d" % k, ncls, r) for k, (ncls, g) in enumerate(satgraphs[:40 if quick else 400])]
+    sessions += [graph_session(g, "c07-noparent%d" % k, ncls, r) for k, (ncls, g) in enumerate(satgraphs[:16 if quick else 400])]
     # larger random e-graphs (more classes / rows than the exhaustive bound), some with saturating costs
-    for k in range(60 if quick else 1500):
+    for k in range(24 if quick else 1500):
         ncls = r.choice([3, 4, 5])
         sat = r.random() < 0.25
         sessions.append(graph_session(random_graph(r, ncls, r.randrange(3, 9), sat), "c07-%s%d" % ("sat" if sat else "rnd", k), ncls, r))
     g = sessgen.Gen(core.seed() * 1000 + 7, PROFILES[0])
-    for k in range(40 if quick else 600):
+    for k in range(16 if quick else 600):
         sessions.append(g.session("c07-r%d" % k))
-    results = sess.run_family("C07_c07", sessions, [(family.SEQ, None)], chunks=12)
+    print("c07: models done at %.0fs, %d sessions" % (time.time() - t0, len(sessions)), flush=True)
+    results = sess.run_family("C07_c07", sessions, [(family.SEQ, None)], chunks=14)
     nb = sess.report(V, "c07", results)
     events = results[0][1]
     nex = sum(1 for e in events if e["e"] == "cmd" and e["c"]["k"] == "extract")
